@@ -69,6 +69,19 @@ CHECKS['C13'] = dict(
     note='packet grouping (_group_ptr_queries_with_known_answers) assumed to keep questions with their known answers; '
          'ServiceInfo lookups (_add_question_with_known_answers, async_request spacing) not under contract in this build; '
          'browsed types distinct ignoring case')
+CHECKS['C12'] = dict(
+    text='The multicast reply queue is proved for every arrival time, random draw and queue content: async_add schedules '
+         'a group at now+additional+[20,120] ms with a deadline of now+additional+aggregation ms (merging into the last '
+         'group when the draw falls before it, which keeps the earlier send time), arms the timer exactly when the queue '
+         'was empty, and keeps the queue ordered; async_ready sends exactly the union of the due groups once, not before '
+         'send_after of any of them, delays to send_before of the head when several groups wait, removes the sent '
+         'records from every remaining group (no duplicate inside or across batches) and re-arms the timer for the new '
+         'head. Lemmas instantiate the windows: out_queue gives [20,120]..500 ms after arrival, out_delay_queue gives '
+         '[1020,1120]..1200 ms, i.e. at least one second after any sighting less than a second before arrival.',
+    design_ref='DESIGN.md section 4 C12',
+    note='timers and sends are ghost logs (loop_model) attached to the real call sites; construct_outgoing_multicast_answers '
+         'is assumed to put exactly the given records in the packet; the event loop is assumed to fire a timer no earlier '
+         'than its due time')
 NOT_APPLICABLE = {
     'C07': 'end-to-end liveness over several hosts and lossy delivery: no per-function contract can express it '
            '(DESIGN.md section 6)',
